@@ -154,12 +154,99 @@ fn shim_closed_system() -> String {
     format!("shim cases={cases} mismatches={} {}", mismatches.len(), mismatches.join(" | "))
 }
 
+/// a reader that hands out at most k bytes per call, once for the crate's trait and once for std's (two types:
+/// in a std build both traits are the same one)
+struct ChunkR<'a> {
+    data: &'a [u8],
+    k: usize,
+}
+impl RRead for ChunkR<'_> {
+    fn read(&mut self, buf: &mut [u8]) -> Result<usize, ruzstd::io::Error> {
+        let n = buf.len().min(self.k).min(self.data.len());
+        buf[..n].copy_from_slice(&self.data[..n]);
+        self.data = &self.data[n..];
+        Ok(n)
+    }
+}
+struct ChunkS<'a> {
+    data: &'a [u8],
+    k: usize,
+}
+impl std::io::Read for ChunkS<'_> {
+    fn read(&mut self, buf: &mut [u8]) -> std::io::Result<usize> {
+        let n = buf.len().min(self.k).min(self.data.len());
+        buf[..n].copy_from_slice(&self.data[..n]);
+        self.data = &self.data[n..];
+        Ok(n)
+    }
+}
+
+/// the provided methods of the crate's Read (read_exact, read_to_end, take) over a source that returns short
+/// reads, against std::io: every (source length 0..=6, chunk 1..=3, buffer 0..=4, limit 0..=7, program of <= 3
+/// operations over {read, read_exact, take(limit).read, take(limit).read_to_end, read_to_end})
+fn shim_chunked_system() -> String {
+    use std::io::Read as SRead;
+    let mut cases = 0u64;
+    let mut mismatches: Vec<String> = vec![];
+    for slen in 0..=6usize {
+        let data: Vec<u8> = (0..slen).map(|i| 10 + i as u8).collect();
+        for k in 1..=3usize {
+            for blen in 0..=4usize {
+                for limit in 0..=7u64 {
+                    for prog in 0..125u32 {
+                        let ops = [prog % 5, (prog / 5) % 5, (prog / 25) % 5];
+                        for n_ops in 1..=3 {
+                            cases += 1;
+                            let mut r = ChunkR { data: &data, k };
+                            let mut s = ChunkS { data: &data, k };
+                            for (step, op) in ops.iter().take(n_ops).enumerate() {
+                                let mut rb = vec![0u8; blen];
+                                let mut sb = vec![0u8; blen];
+                                let (mut rv, mut sv) = (vec![], vec![]);
+                                let (x, y): (Result<usize, ()>, Result<usize, ()>) = match op {
+                                    0 => (RRead::read(&mut r, &mut rb).map_err(|_| ()), SRead::read(&mut s, &mut sb).map_err(|_| ())),
+                                    1 => (RRead::read_exact(&mut r, &mut rb).map(|_| blen).map_err(|_| ()), SRead::read_exact(&mut s, &mut sb).map(|_| blen).map_err(|_| ())),
+                                    2 => {
+                                        let mut rt = RRead::take(&mut r, limit);
+                                        let mut st = SRead::take(&mut s, limit);
+                                        let res = (RRead::read(&mut rt, &mut rb).map_err(|_| ()), SRead::read(&mut st, &mut sb).map_err(|_| ()));
+                                        if rt.limit() != st.limit() && mismatches.len() < 5 {
+                                            mismatches.push(format!("take limit after a short read: source {slen} chunk {k} buffer {blen} limit {limit}: {} vs {}", rt.limit(), st.limit()));
+                                        }
+                                        res
+                                    }
+                                    3 => {
+                                        let mut rt = RRead::take(&mut r, limit);
+                                        let mut st = SRead::take(&mut s, limit);
+                                        (RRead::read_to_end(&mut rt, &mut rv).map(|_| rv.len()).map_err(|_| ()), SRead::read_to_end(&mut st, &mut sv).map_err(|_| ()))
+                                    }
+                                    _ => (RRead::read_to_end(&mut r, &mut rv).map(|_| rv.len()).map_err(|_| ()), SRead::read_to_end(&mut s, &mut sv).map_err(|_| ())),
+                                };
+                                let same = x == y && (x.is_err() || (rb[..x.unwrap_or(0).min(blen)] == sb[..y.unwrap_or(0).min(blen)] && rv == sv && r.data.len() == s.data.len()));
+                                if !same && mismatches.len() < 5 {
+                                    mismatches.push(format!("source {slen} chunk {k} buffer {blen} limit {limit} ops {:?} step {step}: crate {:?} ({} collected, {} left) vs std {:?} ({} collected, {} left)", &ops[..n_ops], x, rv.len(), r.data.len(), y, sv.len(), s.data.len()));
+                                }
+                                if x.is_err() || y.is_err() {
+                                    break;
+                                }
+                            }
+                        }
+                    }
+                }
+            }
+        }
+    }
+    format!("cases={cases} mismatches={} {}", mismatches.len(), mismatches.join(" | "))
+}
+
 fn main() {
     std::panic::set_hook(Box::new(|_| {}));
     let path = std::env::args().nth(1).expect("case file");
     let text = std::fs::read_to_string(path).expect("read case file");
     println!("config std={} hash={}", cfg!(feature = "std"), cfg!(feature = "hash"));
-    println!("{}", shim_closed_system());
+    // both closed systems on one line; a panic inside the crate's I/O layer is an outcome, not a dead driver
+    let shim = |f: fn() -> String| catch_unwind(AssertUnwindSafe(f)).unwrap_or_else(|p| format!("cases=0 mismatches=1 PANIC in the crate's I/O layer: {}", p.downcast_ref::<String>().cloned().or(p.downcast_ref::<&str>().map(|s| s.to_string())).unwrap_or_default()));
+    println!("{} || chunked sources: {}", shim(shim_closed_system), shim(shim_chunked_system));
     for (i, line) in text.lines().enumerate() {
         let (kind, hex) = line.split_once(' ').unwrap_or((line, ""));
         let data = unhex(hex);
